@@ -140,12 +140,12 @@ func (s *Scen) exitHistories(tier string, rng *rand.Rand) []*History {
 // ---------------------------------------------------------------- proposer slashings
 
 type pslashMsg struct {
-	h1, h2       common.BeaconBlockHeader
-	k1, k2       chain.KeyID
-	d1, d2       chain.Domain
-	sig1OK       bool
-	sig2OK       bool
-	desc         string
+	h1, h2        common.BeaconBlockHeader
+	k1, k2        chain.KeyID
+	d1, d2        chain.Domain
+	sig1OK        bool
+	sig2OK        bool
+	desc          string
 	proposerRange bool
 }
 
